@@ -255,6 +255,8 @@ pub struct ThreadSt {
     pub handler_steps: u64,
     pub nest_signals: Vec<i32>,
     pub max_nest: u32,
+    /// nested arrivals carry the payload `nest_value + n` (thread-directed sigqueue) if non-zero
+    pub nest_value: usize,
     pub nested_done: u32,
     pub active_sigs: Vec<i32>,
     /// Directive for a thread that is being given the token: deliver this signal first.
@@ -309,6 +311,8 @@ pub struct Opts {
     pub reduce: bool,
     /// the harness's own actions wait inside handler frames on purpose (relay scenarios)
     pub no_discipline: bool,
+    /// nested arrivals on model thread 1 are queued with payload base + n (0 = plain raise)
+    pub nest_value_t1: usize,
 }
 
 pub trait Monitor {
@@ -693,6 +697,17 @@ fn do_raise(t: usize, sig: i32) {
     do_raise_with(t, sig, None)
 }
 
+fn do_nested_raise(t: usize, sig: i32) {
+    let e = exec();
+    let base = e.threads[t].nest_value;
+    if base != 0 {
+        let v = base + e.threads[t].nested_done as usize;
+        do_raise_with(t, sig, Some(v))
+    } else {
+        do_raise_with(t, sig, None)
+    }
+}
+
 fn do_raise_with(t: usize, sig: i32, value: Option<usize>) {
     let e = exec();
     // The interrupted operation stays pending while the handler frame runs.
@@ -748,7 +763,7 @@ fn schedule(t: usize) {
         if exec().threads[t].deliver.is_some() {
             let s = exec().threads[t].deliver.take().unwrap();
             exec().threads[t].nested_done += 1;
-            do_raise(t, s);
+            do_nested_raise(t, s);
         } else {
             return;
         }
@@ -756,9 +771,12 @@ fn schedule(t: usize) {
     loop {
         let e = exec();
         if e.steps > e.opts.horizon {
+            let in_handler = handler_depth() > 0 && e.handler_discipline;
             fail(format!(
-                "livelock: step horizon {} exceeded (thread {} '{}' at {}:{})",
-                e.opts.horizon, t, e.threads[t].name, e.threads[t].last_site.0, e.threads[t].last_site.1
+                "{}: step horizon {} exceeded (thread {} '{}' at {}:{}{})",
+                if in_handler { "C03" } else { "livelock" },
+                e.opts.horizon, t, e.threads[t].name, e.threads[t].last_site.0, e.threads[t].last_site.1,
+                if in_handler { "; the thread is inside a signal handler frame that does not finish" } else { "" }
             ));
         }
         let n = e.threads.len();
@@ -872,7 +890,7 @@ fn schedule(t: usize) {
                 if exec().threads[t].deliver.is_some() {
                     let s = exec().threads[t].deliver.take().unwrap();
                     exec().threads[t].nested_done += 1;
-                    do_raise(t, s);
+                    do_nested_raise(t, s);
                     continue;
                 }
                 return;
@@ -882,7 +900,7 @@ fn schedule(t: usize) {
                 e.interleaved = true;
                 if x == t {
                     e.threads[t].nested_done += 1;
-                    do_raise(t, s);
+                    do_nested_raise(t, s);
                     continue;
                 }
                 e.switches += 1;
@@ -897,7 +915,7 @@ fn schedule(t: usize) {
                 if exec().threads[t].deliver.is_some() {
                     let s = exec().threads[t].deliver.take().unwrap();
                     exec().threads[t].nested_done += 1;
-                    do_raise(t, s);
+                    do_nested_raise(t, s);
                     continue;
                 }
                 // Being handed the token without a directive means "run".
@@ -1297,7 +1315,11 @@ fn hook_sched_point(tag: &'static str, a: u64) {
     }
     let e = exec();
     e.push_ev(tag, a, 0);
-    e.tick(t);
+    if tag == "cell_access" {
+        e.access(a, true, tag);
+    } else {
+        e.tick(t);
+    }
     stepped(t);
 }
 
@@ -1465,6 +1487,7 @@ pub struct ThreadSpec<S> {
     pub max_nest: u32,
 }
 
+
 pub struct Scenario<S: Sync + Send + 'static> {
     pub name: String,
     pub opts: Opts,
@@ -1579,6 +1602,7 @@ fn new_thread_st(name: &'static str, pending: Pending, clock: VClock, nest: Vec<
         handler_steps: 0,
         nest_signals: nest,
         max_nest,
+        nest_value: 0,
         nested_done: 0,
         active_sigs: vec![],
         deliver: None,
@@ -1706,6 +1730,10 @@ pub fn run_one<S: Sync + Send + 'static>(sc: &Scenario<S>, choices: &[u32], keep
             let mut clock = base;
             clock[i + 1] = 1;
             e.threads.push(new_thread_st(ts.name, Pending::Start, clock, ts.nest_signals.clone(), ts.max_nest));
+            if i == 0 && sc.opts.nest_value_t1 != 0 {
+                let l = e.threads.len() - 1;
+                e.threads[l].nest_value = sc.opts.nest_value_t1;
+            }
         }
         e.tick(0);
         e.phase = Phase::Priming;
